@@ -31,11 +31,20 @@ type solverSpec struct {
 	args func(file string, secs int) []string
 }
 
+// Time limits are CPU-time limits (ulimit -t in a wrapper shell) so that a loaded machine cannot turn a
+// proof that needs 3 s of solver time into a timeout; the solvers' own wall-clock limits are set to
+// wallFactor times that and only guard against a solver that sleeps.
+const wallFactor = 6
+
+func cpuLimited(secs int, argv ...string) []string {
+	return append([]string{"/bin/sh", "-c", fmt.Sprintf("ulimit -t %d; exec \"$@\"", secs+1), "sh"}, argv...)
+}
+
 var solvers = []solverSpec{
-	{"z3-new", func(f string, s int) []string { return []string{"z3-new", fmt.Sprintf("-T:%d", s), f} }},
-	{"z3", func(f string, s int) []string { return []string{"z3", fmt.Sprintf("-T:%d", s), f} }},
+	{"z3-new", func(f string, s int) []string { return cpuLimited(s, "z3-new", fmt.Sprintf("-T:%d", s*wallFactor), f) }},
+	{"z3", func(f string, s int) []string { return cpuLimited(s, "z3", fmt.Sprintf("-T:%d", s*wallFactor), f) }},
 	{"cvc5", func(f string, s int) []string {
-		return []string{"cvc5", fmt.Sprintf("--tlimit=%d", s*1000), "--produce-models", f}
+		return cpuLimited(s, "cvc5", fmt.Sprintf("--tlimit=%d", s*wallFactor*1000), "--produce-models", f)
 	}},
 }
 
@@ -75,7 +84,7 @@ func runSolver(ctx context.Context, sp solverSpec, file string, secs int) (statu
 		return "unknown", "cancelled", 0
 	}
 	t0 := time.Now()
-	cctx, cancel := context.WithTimeout(ctx, time.Duration(secs+2)*time.Second)
+	cctx, cancel := context.WithTimeout(ctx, time.Duration(secs*wallFactor+2)*time.Second)
 	defer cancel()
 	a := sp.args(file, secs)
 	cmd := exec.CommandContext(cctx, a[0], a[1:]...)
